@@ -97,6 +97,26 @@ def run(ctx: Ctx) -> Result:
         if n >= 2:
             chain_ok(certs[:1] + [T.make_delegate_key_cert(other_root, pks[1], begin, end, True)] + certs[2:], seeds[-1], 'splice: cert 1 issued by an unrelated key')
             chain_ok(certs[1:], seeds[-1], 'chain with its first cert removed')
+        # every certificate has its own window: one link outside its window (the others current) must sink the chain,
+        # wherever in the chain it is
+        if n >= 2:
+            for j in range(n):
+                for wb, we, what in ((now - 1000, now, 'expired exactly now (end == t)'), (now + 1, now + 1000, 'not yet valid'), (now - 1000, now - 1, 'expired')):
+                    cs = [T.make_delegate_key_cert(signers[q], pks[q], (wb if q == j else begin), (we if q == j else end), True) for q in range(n)]
+                    w = T.make_delegate_key_chain_witness(seeds[-1], list(reversed(cs)), sf, flags)
+                    ok, v = B.auth([w.bytes, lockc.bytes], cache)
+                    res.note_case((root, tuple(seeds), 'window-of-link', j, what))
+                    if ok: B.viol(f'chain of {n}: certificate {j} is {what}, all others are current', {'root_seed': root.hex(), 'chain_length': n, 'link': j, 'scripts': [w.bytes.hex(), lockc.bytes.hex()], 'cache': vmrun.cache_str(cache, False)}, False, v)
+        # a witness that defines function 0 itself: the lock's own `def 0` must be the one that runs
+        squat = T.Script.from_src(rng.choice(['def 0 { pop0 true }', 'def 0 { true }', 'def 0 { pop0 pop0 true }'])).bytes
+        ok, v = B.auth([squat, lockc.bytes], cache)
+        if ok: B.viol('chain lock opened by a witness that only defines function 0 (no certificate, no signature)', {'root_seed': root.hex(), 'scripts': [squat.hex(), lockc.bytes.hex()], 'cache': vmrun.cache_str(cache, False)}, False, v)
+        wgood = T.make_delegate_key_chain_witness(seeds[-1], list(reversed(certs)), sf, flags)
+        ok, v = B.auth([squat + wgood.bytes, lockc.bytes], cache)
+        if not ok: B.viol('honest chain rejected because the witness also defines function 0 (the lock redefines it)', {'root_seed': root.hex(), 'chain_length': n, 'scripts': [(squat + wgood.bytes).hex(), lockc.bytes.hex()], 'cache': vmrun.cache_str(cache, False)}, True, v)
+        wforeign = T.make_delegate_key_chain_witness(seeds[-1], list(reversed(foreign)), sf, flags)
+        ok, v = B.auth([squat + wforeign.bytes, lockc.bytes], cache)
+        if ok: B.viol('chain rooted in a different root key accepted behind a witness-defined function 0', {'root_seed': root.hex(), 'chain_length': n, 'scripts': [(squat + wforeign.bytes).hex(), lockc.bytes.hex()], 'cache': vmrun.cache_str(cache, False)}, False, v)
         # terminal cert holder tries to delegate further
         if n >= 2:
             term = [T.make_delegate_key_cert(([root] + seeds[:-1])[j], pks[j], begin, end, j != 0) for j in range(n)]
